@@ -386,21 +386,27 @@ def rule_r3(chk, p, t):
             r.violation(los.qualname + ":early-exit", "tau-range:" + ";".join(bad), f"lineOfSight's early `return True` is not `tau < 0 or tau > 1` on orderings {bad}", los.loc(early[0]))
         else:
             r.ok(los.qualname + ":early-exit", "visible when the closest approach lies outside the segment (tau < 0 or tau > 1)", los.loc(early[0]))
-        # tau and closest approach: normal forms, written over (r1.r1, r2.r2, r1.r2)
-        defs = single_defs(los.node)
-        tau = defs.get("tau")
-        want_tau = canon(ast.parse("(r1sq - r1_dot_r2) / (r1sq + r2sq - 2 * r1_dot_r2)", mode="eval").body)
-        ok_tau = tau is not None and canon(tau) == want_tau
-        fin = final[0].value
-        want_lhs = canon(ast.parse("(1 - tau) * r1sq + r1_dot_r2 * tau", mode="eval").body)
-        ok_cmp = len(fin.ops) == 1 and isinstance(fin.ops[0], ast.GtE) and canon(fin.left) == want_lhs and canon(fin.comparators[0]) == canon(ast.parse("Earth.radius ** 2", mode="eval").body)
-        d1 = defs.get("r1_dot_r2")
-        ok_defs = d1 is not None and canon(d1) in (canon(ast.parse(f"dot({a}, {b})", mode="eval").body), canon(ast.parse(f"dot({b}, {a})", mode="eval").body))
-        ok_sq = canon(defs.get("r1sq", ast.Constant(0))) == canon(ast.parse(f"norm({a}) ** 2", mode="eval").body) and canon(defs.get("r2sq", ast.Constant(0))) == canon(ast.parse(f"norm({b}) ** 2", mode="eval").body)
-        if ok_tau and ok_cmp and ok_defs and ok_sq:
-            r.ok(los.qualname + ":closest-approach", "tau = (r1.r1 - r1.r2)/|r1 - r2|^2; (1 - tau) r1.r1 + tau r1.r2 >= R^2", los.loc(final[0]))
+        # tau and closest approach (Vallado's parametric form) definition by definition
+        from rsa import refdefs
+
+        ref_src = f"""
+def lineOfSight({a}, {b}):
+    r1_dot_r2 = dot({a}, {b})
+    r1sq = norm({a}) ** 2
+    r2sq = norm({b}) ** 2
+    tau = (r1sq - r1_dot_r2) / (r1sq + r2sq - 2 * r1_dot_r2)
+    if tau < 0.0 or tau > 1.0:
+        return True
+    return (1 - tau) * r1sq + r1_dot_r2 * tau >= Earth.radius ** 2
+"""
+        res = refdefs.compare(los.node, ast.parse(ref_src).body[0], names=("tau", "<return>", "r1_dot_r2", "r1sq", "r2sq"))
+        bad_ = [text for _nm, text, _ln in res["mismatch"]]
+        if bad_:
+            r.violation(los.qualname + ":closest-approach", "formula:" + ";".join(x[:50] for x in bad_), "lineOfSight's closest-approach test deviates from Vallado's parametric form: " + "; ".join(bad_), los.loc(final[0]))
+        elif res["unsure"]:
+            r.undecided(los.qualname + ":closest-approach", "; ".join(t_ for _n, t_, _l in res["unsure"])[:300], los.loc(final[0]))
         else:
-            r.violation(los.qualname + ":closest-approach", f"formula:tau={ok_tau}:cmp={ok_cmp}:dot={ok_defs}:sq={ok_sq}", f"lineOfSight's closest-approach test deviates from Vallado's parametric form (tau ok={ok_tau}, final comparison ok={ok_cmp}, dot ok={ok_defs}, squares ok={ok_sq}): `{unparse(fin)}`", los.loc(final[0]))
+            r.ok(los.qualname + ":closest-approach", "tau = (r1.r1 - r1.r2)/|r1 - r2|^2; (1 - tau) r1.r1 + tau r1.r2 >= R^2", los.loc(final[0]))
 
     r.guard(los.qualname, los_check)
 
@@ -885,39 +891,32 @@ def rule_r5(chk, p, t, rid="C14.R5"):
     fn = p.func(f"{SU}.calculateSunVizFraction")
 
     def one():
-        cfg = cfg_of(fn)
+        from rsa import refdefs
+
         tgt, sun = fn.params
-        defs = single_defs(fn.node)
-        exp = {
-            "sat_sun_vector": f"{sun} - {tgt}",
-            "a": "arcsin(Sun.radius / norm(sat_sun_vector))",
-            "b": f"arcsin(Earth.radius / norm({tgt}))",
-            "c": f"arccos(dot(-{tgt}, sat_sun_vector) / (norm({tgt}) * norm(sat_sun_vector)))",
-            "x": "(c ** 2 + a ** 2 - b ** 2) / (2 * c)",
-            "y": "sqrt(a ** 2 - x ** 2)",
-            "A": "a ** 2 * arccos(x / a) + b ** 2 * arccos((c - x) / b) - c * y",
-        }
-        bad = [f"{k} = `{unparse(defs.get(k)) if defs.get(k) is not None else None}`" for k, v in exp.items() if defs.get(k) is None or canon(defs[k]) != canon(ast.parse(v, mode="eval").body)]
-        rets = [n for n in cfg.nodes if n.kind == "return"]
-        # classify returns by their guarding atoms
-        table = []
-        for rt in sorted(rets, key=lambda n: n.lineno):
-            conds = [(unparse(cfg.nodes[cid].ast), lab) for cid, lab in cfg.control_conditions(rt.id) if cfg.nodes[cid].kind == "cond"]
-            table.append((unparse(rt.ast.value), conds))
-        want = [
-            ("1.0", [(f"norm({sun}) >= norm(sat_sun_vector)", True)]),
-            ("0.0", [(f"norm({sun}) >= norm(sat_sun_vector)", False), ("c < abs(b - a)", True)]),
-            ("1.0 - A / (PI * a ** 2)", [(f"norm({sun}) >= norm(sat_sun_vector)", False), ("c < abs(b - a)", False), ("c < abs(a + b)", True)]),
-            ("1.0", [(f"norm({sun}) >= norm(sat_sun_vector)", False), ("c < abs(b - a)", False), ("c < abs(a + b)", False)]),
-        ]
-        if len(table) != len(want):
-            bad.append(f"{len(table)} returns (4 cases expected)")
-        else:
-            for (gv, gc), (wv, wc) in zip(table, want):
-                if canon(ast.parse(gv, mode="eval").body) != canon(ast.parse(wv, mode="eval").body) or sorted(gc) != sorted(wc):
-                    bad.append(f"case `return {gv}` under {gc} (expected `return {wv}` under {wc})")
+        ref_src = f"""
+def calculateSunVizFraction({tgt}, {sun}):
+    sat_sun_vector = {sun} - {tgt}
+    a = arcsin(Sun.radius / norm(sat_sun_vector))
+    b = arcsin(Earth.radius / norm({tgt}))
+    c = arccos(dot(-{tgt}, sat_sun_vector) / (norm({tgt}) * norm(sat_sun_vector)))
+    if norm({sun}) >= norm(sat_sun_vector):
+        return 1.0
+    if c < abs(b - a):
+        return 0.0
+    if c < abs(a + b):
+        x = (c ** 2 + a ** 2 - b ** 2) / (2 * c)
+        y = sqrt(a ** 2 - x ** 2)
+        A = a ** 2 * arccos(x / a) + b ** 2 * arccos((c - x) / b) - c * y
+        return 1.0 - A / (PI * a ** 2)
+    return 1.0
+"""
+        res = refdefs.compare(fn.node, ast.parse(ref_src).body[0])
+        bad = [text for _nm, text, _ln in res["mismatch"]]
         if bad:
-            r.violation(fn.qualname, "sun-fraction:" + ";".join(bad), "calculateSunVizFraction: " + "; ".join(bad), fn.loc())
+            r.violation(fn.qualname, "sun-fraction:" + ";".join(b_[:60] for b_ in bad), "calculateSunVizFraction: " + "; ".join(bad), fn.loc())
+        elif res["unsure"]:
+            r.undecided(fn.qualname, "; ".join(t_ for _n, t_, _l in res["unsure"])[:300], fn.loc())
         else:
             r.ok(fn.qualname, "sunward 1 / umbra 0 / partial overlap formula / no occultation 1", fn.loc(), obligations=11)
 
